@@ -7,7 +7,7 @@ import warnings
 
 import torch
 
-KERNEL_KINDS = ['wavelet', 'fft', 'fourier_nufft', 'gridsample', 'sliceproj', 'pca']
+KERNEL_KINDS = ['wavelet', 'fft', 'fourier_nufft', 'gridsample', 'sliceproj', 'pca', 'einsum_rule']
 WAVELETS_ORTHO = ['haar', 'db2', 'db3', 'sym2', 'sym4', 'coif1']
 WAVELETS_BIORTHO = ['bior1.3', 'bior2.2', 'rbio2.2', 'bior4.4', 'dmey']
 
@@ -40,6 +40,11 @@ def gen_config(kind, rng: random.Random, thorough=False):
                 'batch': rng.choice([[], [], [2], [1, 2], [3]]), 'seed': seed}
     if kind == 'pca':
         return {'kind': kind, 'coils': rng.randint(2, 5), 'n': rng.randint(1, 3), 'samples': rng.randint(6, 12), 'lead': rng.choice([[], [], [2], [2, 1]]), 'seed': seed}
+    if kind == 'einsum_rule':
+        # the documented uses of EinsumOp and a few more (the adjoint pattern is derived from the rule string)
+        rule = rng.choice(['i j, ... j -> ... i', '... i j, j -> ... i', '... i j, ... j -> ... i', '... i j, ... j k -> ... i k', 'b i j, b j -> b i',
+                           '... i, ... i -> ... i', 'i j, ... j k -> ... k i'])
+        return {'kind': kind, 'rule': rule, 'b': rng.randint(1, 3), 'm': rng.randint(1, 3), 'n': rng.randint(1, 3), 'k': rng.randint(1, 2), 'seed': seed}
     raise KeyError(kind)
 
 
@@ -120,6 +125,18 @@ def build(cfg):
         dom = [*cfg.get('batch', []), n, n, n]
         (y,) = op(torch.zeros(dom, dtype=torch.complex64))
         return op, dom, list(y.shape), 1e-5
+    if kind == 'einsum_rule':
+        b, m, n, k = cfg['b'], cfg['m'], cfg['n'], cfg['k']
+        rule = cfg['rule']
+        lhs_m, lhs_x = (t.split() for t in rule.split('->')[0].split(','))
+        sizes = {'i': m, 'j': n, 'k': k, 'b': b, '...': b}
+        mshape = [sizes[t] for t in lhs_m]
+        xshape = [sizes[t] for t in lhs_x]
+        mat = torch.tensor([complex(rng.randint(-3, 3), rng.randint(-3, 3)) for _ in range(math.prod(mshape))], dtype=torch.complex128).reshape(mshape)
+        op = mrpro.operators.EinsumOp(mat, rule)
+        (y,) = op(torch.zeros(xshape, dtype=torch.complex128))
+        op._verif = (mat, rule)
+        return op, xshape, list(y.shape), 1e-12
     if kind == 'pca':
         c, n, s = cfg['coils'], min(cfg['n'], cfg['coils']), cfg['samples']
         data = torch.tensor([complex(rng.gauss(0, 1), rng.gauss(0, 1)) for _ in range(s * c)], dtype=torch.complex128).reshape(s, c)
